@@ -1324,31 +1324,22 @@ func (b *bounds) origins(e ast.Expr, depth int) []origin {
 			if (pi >= 0 || pi == -2) && fn != nil && !fn.Exported() {
 				var out []origin
 				n := 0
-				funcsOf(b.prog, func(pkgPath string, info *types.Info, fd *ast.FuncDecl, caller *types.Func) {
-					cb := (*bounds)(nil)
-					ast.Inspect(fd.Body, func(x ast.Node) bool {
-						call, ok := x.(*ast.CallExpr)
-						if !ok {
-							return true
+				for _, cs := range staticCallsOf(b.prog, fn) {
+					if pi >= len(cs.call.Args) {
+						continue
+					}
+					cb := newBounds(b.prog, cs.info, cs.fd)
+					n++
+					if pi == -2 {
+						if sel, ok := ast.Unparen(cs.call.Fun).(*ast.SelectorExpr); ok {
+							out = append(out, cb.origins(sel.X, depth+1)...)
+						} else {
+							out = append(out, origin{cs.call.Fun, cs.info})
 						}
-						if cf, ok := typeutil.Callee(info, call).(*types.Func); ok && cf.Origin() == fn && pi < len(call.Args) {
-							if cb == nil {
-								cb = newBounds(b.prog, info, fd)
-							}
-							n++
-							if pi == -2 {
-								if sel, ok := ast.Unparen(call.Fun).(*ast.SelectorExpr); ok {
-									out = append(out, cb.origins(sel.X, depth+1)...)
-								} else {
-									out = append(out, origin{call.Fun, info})
-								}
-							} else {
-								out = append(out, cb.origins(call.Args[pi], depth+1)...)
-							}
-						}
-						return true
-					})
-				})
+					} else {
+						out = append(out, cb.origins(cs.call.Args[pi], depth+1)...)
+					}
+				}
 				if n > 0 {
 					return out
 				}
@@ -1586,4 +1577,35 @@ func callOracleExpr(match func(e ast.Expr) (matched, canTrue, canFalse bool)) fu
 		return true, true
 	}
 	return ev
+}
+
+// staticCall is one static call of a moq function.
+type staticCall struct {
+	info *types.Info
+	fd   *ast.FuncDecl
+	call *ast.CallExpr
+}
+
+var (
+	callIndexProg *load.Program
+	callIndex     map[*types.Func][]staticCall
+)
+
+// staticCallsOf lists the static calls of fn in moq's packages (indexed once per program).
+func staticCallsOf(prog *load.Program, fn *types.Func) []staticCall {
+	if callIndexProg != prog {
+		callIndexProg = prog
+		callIndex = map[*types.Func][]staticCall{}
+		funcsOf(prog, func(pkgPath string, info *types.Info, fd *ast.FuncDecl, caller *types.Func) {
+			ast.Inspect(fd.Body, func(n ast.Node) bool {
+				if call, ok := n.(*ast.CallExpr); ok {
+					if cf, ok := typeutil.Callee(info, call).(*types.Func); ok && prog.IsMoqPkg(cf.Pkg()) {
+						callIndex[cf.Origin()] = append(callIndex[cf.Origin()], staticCall{info, fd, call})
+					}
+				}
+				return true
+			})
+		})
+	}
+	return callIndex[fn.Origin()]
 }
